@@ -338,6 +338,9 @@ func (c *Client) flushBuf(ctx context.Context, b *proto.Buffer) error {
 
 func (c *Client) flush(ctx context.Context) error {
 	if err := ctx.Err(); err != nil {
+		// Nothing is written. Drop what was queued for this request, so that it
+		// is not sent as a prefix of the next one (e.g. a refused Ping).
+		c.writer = proto.NewWriter(c.conn, new(proto.Buffer))
 		return errors.Wrap(err, "context")
 	}
 	if deadline, ok := ctx.Deadline(); ok {
